@@ -94,14 +94,33 @@ def run(ctx):
     # 3. prune_objects
     po = F.fn("Document::prune_objects")
     tr = lib.local_calls(F, po, "Document::traverse_objects")
-    cont = [c for c in po.calls if re.search(r"contains$", c.fn or "") and "refs" in po.oname(c.args[0], 3)]
-    rm = [c for c in po.calls if re.search(r"BTreeMap::<.*>::remove$", c.fn or "") and "objects" in po.oname(c.args[0], 4)]
-    push = [c for c in po.calls if re.search(r"Vec::<.*>::push$", c.fn or "") and "ids" in po.oname(c.args[0], 3)]
-    ok = len(tr) == 1 and len(cont) == 1 and len(rm) == 1 and len(push) == 1
-    if ok:
-        import inv
-        gs = inv.rendered_guards(po, push[0].bb)
-        ok = any(g.startswith("contains(") and "refs" in g and tr_ is False for g, tr_ in gs)
+    ok = False
+    if len(tr) == 1 and not tr[0].dest["p"]:
+        T = tr[0].dest["l"]
+        # membership tests against the traversal result, in prune_objects or its closures (data flow, not names)
+        cont = [(b2, c) for b2 in F.with_closures(po) for c in b2.calls if re.search(r"contains$", c.fn or "") and lib.same_origin(F, b2, c.args[0], po, T)]
+        rm = [c for c in po.calls if re.search(r"BTreeMap::<.*>::remove$", c.fn or "") and (lib.origin_local(F, po, c.args[0]) or (0, 0, [{}]))[2][-1:] and
+              lib.origin_local(F, po, c.args[0])[2][-1].get("n") == "objects"]
+        keys = [c for c in po.calls if re.search(r"BTreeMap::<.*>::keys$", c.fn or "") and (lib.origin_local(F, po, c.args[0]) or (0, 0, []))[2][-1:] and
+                lib.origin_local(F, po, c.args[0])[2][-1].get("n") == "objects"]
+        neg = False
+        if len(cont) == 1:
+            cb, c = cont[0]
+            if cb is po:
+                # loop form: a push into the id list is entered only on the `not contained` edge
+                for pc in po.calls:
+                    if re.search(r"Vec::<.*>::push$", pc.fn or ""):
+                        for g, s2 in lib.taken_edges(po, pc.bb):
+                            if lib.switch_on(po, g, c.dest["l"]):
+                                t = po.term(g)
+                                neg = any(v == "0" and x == s2 for v, x in t["tg"])
+            else:
+                # iterator form: the closure is the predicate of a filter over keys() and returns !contains(..)
+                ret = [st for bi, si, st in cb.stmts() if "lhs" in st and st["lhs"]["l"] == 0 and not st["lhs"]["p"]]
+                isnot = len(ret) == 1 and ret[0]["rv"]["k"] == "un" and ret[0]["rv"]["op"] == "Not" and lib.switch_on_operand(cb, ret[0]["rv"]["o"], c.dest["l"])
+                filt = [fc for fc in po.calls if re.search(r"Iterator::filter$", fc.fn or "") and cb.path in (fc.full or "") + po.oname(fc.args[1], 3)]
+                neg = isnot and len(filt) == 1
+        ok = len(cont) == 1 and len(rm) == 1 and len(keys) == 1 and neg
     ctx.ob("R-ORDER", "prune-exactly-unreachable", ok, "ids = keys not contained in traverse_objects(); exactly those are removed", po.where(),
            what="prune_objects no longer removes exactly the keys that traverse_objects() does not reach")
     # 4. delete_pages: Count - 1 along the Parent chain
